@@ -377,6 +377,7 @@ pub fn run(cfg: &Cfg) -> Stats {
     // 1. collect values with their routes
     let bucket: Mutex<Vec<Item>> = Mutex::new(vec![]);
     let cap = cfg.pick(30_000usize, 400_000usize);
+    let keep_mod = cfg.pick(8u64, 16u64);
     let mut collected = values::for_each_value(cfg, "c12", &|loc, case, st, _mode| {
         // keep a deterministic subset: decided by the hash of the case
         let hh = hash_str(&case.to_string());
@@ -394,7 +395,9 @@ pub fn run(cfg: &Cfg) -> Stats {
                 }
             }
         }
-        let keep = (values::case_route(case) != "bytes" && !likely_route) || hh % 8 == 0 || !loc.extensions.other.is_empty();
+        // one case in 8 | 16 is kept (decided by its hash): the bucket is cut to `cap` by hash order below
+        // anyway, and holding every value first cost 43 GB in the thorough tier (killed by the kernel)
+        let keep = hh % keep_mod == 0 || !loc.extensions.other.is_empty();
         if keep {
             let mut b = bucket.lock().unwrap();
             b.push(item(loc.clone(), case.clone()));
